@@ -260,6 +260,13 @@ impl<W: AsRef<[u64]>> YamlIndex<W> {
         self.bp.rank1(bp_pos)
     }
 
+    /// Verification hook (feature `verif-hooks`): the end-position table, for cursor-state
+    /// comparison by the external harness.
+    #[cfg(feature = "verif-hooks")]
+    pub fn verif_end_positions(&self) -> &EndPositions {
+        &self.bp_to_text_end
+    }
+
     /// Get the text byte offset given a precomputed open index.
     #[inline]
     pub fn text_pos_by_open_idx(&self, open_idx: usize) -> Option<usize> {
